@@ -1,7 +1,9 @@
 """C15 — a subclass model means its parent's schema plus its own additions.
 
 Correspondence: histories of class statements (any parent defined so far, any subset of the 11
-class keywords, properties added / overridden, docstrings, multi-level chains) interleaved with
+class keywords, properties added / overridden, docstrings, multi-level chains; attribute names and JSON
+names paired freely, so that an added property's JSON name can be the attribute name or the JSON name
+of a property declared earlier in the chain under another attribute) interleaved with
 uses and reconfigurations (keyword assignment, property add / replace / delete, required flag and
 element swap on a property) run on real classes and on the Lean model (`Inherit.step`); after every
 step the dump of *every* class is compared with the model's view of it.
@@ -57,7 +59,7 @@ def norm(d):
     return d
 
 
-def gen_decl(rng, dg, idx, existing_names):
+def gen_decl(rng, dg, idx, existing_names, crossed=None):
     """A class statement as (dump carrying the values, passed keyword names, docstring)."""
     kw, out = {}, {"cls": "Object", "name": f"K{idx}"}
     dg.object_kws(kw, out, 2, True)
@@ -78,6 +80,23 @@ def gen_decl(rng, dg, idx, existing_names):
                 key["required"] = True
             props.append([key, dg.leaf()])
             out["props"] = props
+    # crossed names: attribute names and JSON names are two namespaces and a class statement may pair them freely. A property under another
+    # attribute (not yet used in this statement) whose JSON name is the attribute name (or the JSON name) of a property declared earlier,
+    # possibly by an ancestor: override goes by attribute name only, so every inherited property under a different attribute must survive
+    # next to it, exactly as in the flat class declared with the merged properties.
+    if existing_names and rng.random() < 0.35:
+        other = rng.choice(existing_names)
+        src = rng.choice([other, other, dsl.SOURCES.get(other) or other])
+        taken = {k["name"] for k, _ in props}
+        fresh = [a for a in dsl.ATTRS + dsl.KW_ATTRS if a not in taken and a != other and a != src]
+        if fresh:
+            key = {"name": rng.choice(fresh), "source": src}
+            if rng.random() < 0.4:
+                key["required"] = True
+            props.append([key, dg.leaf()])
+            out["props"] = props
+            if crossed is not None:
+                crossed.append((key["name"], src))
     kw["hasProps"] = True
     passed = [k for k in ("default", "const", "enum", "required", "description", "minProperties", "maxProperties") if k in kw]
     if kw.get("hasPatProps"):
@@ -91,6 +110,29 @@ def gen_decl(rng, dg, idx, existing_names):
     out["kw"] = kw
     doc = rng.choice([None, None, "Doc string.", ""])
     return out, passed, doc
+
+
+def prop_label(key):
+    """attribute name, with the JSON name when it is a different string"""
+    src = key.get("source")
+    return key["name"] if not src or src == key["name"] else f"{key['name']} (JSON {src!r})"
+
+
+def props_diff(got, want):
+    """where two normalised class dumps differ in their properties, in words ('' when the property lists are equal)"""
+    g = {k["name"]: (k, s) for k, s in got.get("props", [])}
+    w = {k["name"]: (k, s) for k, s in want.get("props", [])}
+    parts = []
+    if [n for n in w if n not in g]:
+        parts.append("properties missing: " + ", ".join(prop_label(w[n][0]) for n in w if n not in g))
+    if [n for n in g if n not in w]:
+        parts.append("properties not in the merged declaration: " + ", ".join(prop_label(g[n][0]) for n in g if n not in w))
+    changed = [n for n in g if n in w and g[n] != w[n]]
+    if changed:
+        parts.append("properties that differ: " + ", ".join(changed))
+    if not parts and list(g) != list(w):
+        parts.append(f"property order {list(g)} instead of {list(w)}")
+    return "; ".join(parts)
 
 
 def real_kwargs(dump, passed):
@@ -236,7 +278,8 @@ def run_history(drv, rng, out, stats, label, n_steps, thorough=False):
         if have == 0 or (k < 0.35 and have < 6):
             # ---- class statement
             parent_idx = rng.randrange(len(h.classes)) if rng.random() < 0.85 else 0
-            dump, passed, doc = gen_decl(rng, dg, len(h.classes), names_seen)
+            crossed = []
+            dump, passed, doc = gen_decl(rng, dg, len(h.classes), names_seen, crossed)
             before = h.snapshot()
             try:
                 parent_dump = norm(core.dump_elem(h.classes[parent_idx])) if parent_idx else {"cls": "Object", "name": "Object", "kw": {"hasProps": True}}
@@ -249,7 +292,7 @@ def run_history(drv, rng, out, stats, label, n_steps, thorough=False):
                 continue
             h.classes.append(cls)
             n_defined += 1
-            h.log.append(f"class {dump['name']}({h.classes[parent_idx].__name__}, passed={passed}, props={[k['name'] for k, _ in dump.get('props', [])]}, doc={doc!r})")
+            h.log.append(f"class {dump['name']}({h.classes[parent_idx].__name__}, passed={passed}, props={[prop_label(k) for k, _ in dump.get('props', [])]}, doc={doc!r})")
             h.ops.append({"op": "define", "parent": parent_idx, "name": dump["name"], "args": args_json(dump, passed), "doc": doc,
                           "props": [[key["name"], cell_json(key, sub)] for key, sub in dump.get("props", [])]})
             names_seen.extend(k["name"] for k, _ in dump.get("props", []) if k["name"] not in names_seen)
@@ -260,6 +303,18 @@ def run_history(drv, rng, out, stats, label, n_steps, thorough=False):
             overridden = [k["name"] for k, _ in dump.get("props", []) if any(k["name"] == pk["name"] for pk, _ in parent_dump.get("props", []))]
             if overridden:
                 stats["property-overridden"] = stats.get("property-overridden", 0) + 1
+            for attr, src in crossed:
+                # what the fresh attribute's JSON name coincides with among the properties the class inherits
+                inherited = [(pk["name"], pk.get("source") or pk["name"]) for pk, _ in parent_dump.get("props", [])]
+                if any(a == src and s != a for a, s in inherited):
+                    kind = "attr-of-inherited-aliased-property"
+                elif any(s == src for a, s in inherited):
+                    kind = "json-name-of-inherited-property"
+                elif any(a == src for a, s in inherited):
+                    kind = "attr-of-inherited-property"
+                else:
+                    kind = "name-declared-outside-the-chain"
+                stats["crossed-source-" + kind] = stats.get("crossed-source-" + kind, 0) + 1
             h.check_isolation(before, None, f"defining {dump['name']}")
             # flat equivalence
             flat_dump = flat_of(parent_dump, dump, passed, doc)
@@ -280,7 +335,9 @@ def run_history(drv, rng, out, stats, label, n_steps, thorough=False):
                 out.note_case({"history": list(h.log), "check": "flat"}, parent_idx != 0)
                 cd = norm(core.dump_elem(cls))
                 if cd != norm(flat_dump):
+                    pd = props_diff(cd, norm(flat_dump))
                     out.failures.append({"case": h.case(), "what": f"{dump['name']} is configured differently from the flat class with the merged keywords and properties: "
+                                         + (pd + "; " if pd else "") +
                                          f"{json.dumps(cd, sort_keys=True)[:300]} vs {json.dumps(norm(flat_dump), sort_keys=True)[:300]}", "finding": None})
                 elif b_child != b_flat:
                     i = next(i for i, (a, b) in enumerate(zip(b_child, b_flat)) if a != b)
@@ -456,7 +513,8 @@ def run(ctx, scale=1.0):
     rng = random.Random(ctx["seed"] + 15)
     out = Outcome()
     out.rule = ("histories of 1-25 steps: class statements (parent = any class so far incl. Object, any subset of 11 keywords, 0-4 properties biased to "
-                "override inherited names, docstrings, chains up to depth 6) interleaved with uses and 5 kinds of reconfiguration on a random class; "
+                "override inherited names, plus (35%) one added under a fresh attribute whose JSON name is the attribute or JSON name of an earlier property, "
+                "docstrings, chains up to depth 6) interleaved with uses and 5 kinds of reconfiguration on a random class; "
                 "after every class statement: flat-equivalence (dump, 22+ values, serialize_json, instance-of); after every step: isolation of all other "
                 "classes (dump, 16 probe values, serialize_json); model views compared at the end of each history (lengths 1-25 all occur); "
                 "a case is one check after one step; non-trivial = involves a class below a user class; distinct by SHA-256")
